@@ -172,11 +172,14 @@ func (gs *GenState) genMetaC08(r *rand.Rand, gi *GenIdx, ints bool) map[string]a
 			m["tags"] = l
 		case 4:
 			// rank changes type across updates
-			switch r.Intn(4) {
+			switch r.Intn(5) {
 			case 0:
 				m["rank"] = "red"
 			case 1:
 				m["rank"] = r.Intn(2) == 0
+			case 2:
+				// a string that prints like a number: overwriting 1 with "1" (or back) changes the type only
+				m["rank"] = fmt.Sprint(r.Intn(3))
 			default:
 				m["rank"] = num(float64(r.Intn(3)))
 			}
@@ -592,7 +595,8 @@ func textCheck(w *World, mi *MIdx, op Op, i int, state string) bool {
 	}
 	hasText := false
 	for _, mv := range mi.Vecs {
-		if _, ok := mv.Meta["content"].(string); ok {
+		// a text field exists for the engine once some live document has at least one indexed token in it
+		if s, ok := mv.Meta["content"].(string); ok && len(an(s)) > 0 {
 			hasText = true
 		}
 	}
